@@ -30,7 +30,9 @@ RULE = (
     "modes exception / kill (forked child, os._exit) / torn (kill + truncate the file written last); plus "
     "completed producers and histories of 2..3 producers; observed: assign_confidence with its own table (fewer "
     "chunks). cli: mokapot.mokapot.main on a ragged PIN with a complete / torn / foreign <pin>.tsv left beside "
-    "it. Non-trivial = the debris directory differed from empty when the observed run started; distinct = "
+    "it. rollup_history: mokapot.brew_rollup on result sets of 1..3 of 4 analyses after 1..3 earlier rollups (other sets, base level "
+    "psm/peptide, destination = the input directory / another directory / the input directory spelt x/../src, completed or "
+    "aborted at a file event), compared byte for byte with the same rollup on a pristine input directory. Non-trivial = the debris directory differed from empty when the observed run started; distinct = "
     "(producer config, mode, k) / history."
 )
 ASSUMPTIONS = [
